@@ -888,6 +888,11 @@ def gen_incoming(rng, p):
         nums = [n for n, _ in p.opts]
         return (rng.choice(["i", "i", "c"]), rng.choice(nums + [min(nums) - 1, max(nums) + 1, max(nums) + 5]))
     if ek == "s":
+        if getattr(p, "default", None) and rng.random() < 0.3:
+            # a string that shares a prefix with the default (differs only further back)
+            d = bytes(p.default[0])
+            k = rng.randint(0, len(d))
+            return ("s", d[:k] + bytes(rng.choice(b"abcxyz 12") for _ in range(rng.choice([0, 1, 1, 2, 3]))))
         n = rng.choice([0, 1, 2, 3, 5, 7, 15, 20])
         return ("s", bytes(rng.choice(STR_ALPHA) for _ in range(n)))
     raise ValueError(ek)
